@@ -75,6 +75,13 @@ def check_batched(ctx, fi: FuncInfo, cls: str, rule: str = "NI-1") -> int:
     n_walkers = None
     split_ok = True
     why = []
+    unknown_members = [k for k, m in enumerate(members) if strip_wrappers(m).op in ("star", "comp", "genseq")]
+    if unknown_members:
+        # (fields.reshape(..), *<generated blocks>): how many arrays are scanned, and how each is split, is not
+        # fixed by the source text; the split / vmap / merge rules have nothing definite to judge
+        ctx.rep.note(f"{q}: the scanned tuple is built with a starred / generated part (member {unknown_members[0]}); "
+                     f"the batching rules do not apply to this form")
+        return n_ob
     for k, m in enumerate(members):
         rs = _reshape_split(strip_wrappers(m))
         if rs is None or len(rs[1]) < 2:
